@@ -32,14 +32,24 @@ RAISED = object()
 
 
 # ---------------------------------------------------------------------------- projections of values
+# All edge lengths of a case are the logged small numbers times 2**EXP[0] (an exact power of two, so
+# every float operation of the library sees the same mantissas); the projections divide the scale out
+# again, so that TLC sees the same integers whatever the scale.  Set by run_case (one case at a time per process).
+EXP = [0]
+
+
+def unit():
+    return Fraction(2) ** EXP[0]
+
+
 def sc(v):
-    """distance -> integer in units of 1/4; -2 not representable, -3 None, -9 the call raised"""
+    """distance -> integer in units of 1/4 (of the case's scale); -2 not representable, -3 None, -9 the call raised"""
     if v is RAISED:
         return -9
     if v is None:
         return -3
     try:
-        f = Fraction(v) * proj.LSCALE
+        f = Fraction(v) * proj.LSCALE / unit()
     except Exception:
         return -2
     if f.denominator != 1 or f < 0 or f > 10 ** 7:
@@ -60,12 +70,12 @@ def cnt(v):
     return int(f)
 
 
-def rat(v, max_den=10000):
-    """float -> [num, den, exact?] (proj.rat); never null, den > 0"""
+def rat(v, max_den=10000, scaled=True):
+    """float -> [num, den, exact?] (proj.rat) after dividing the case's power-of-two scale out (exact); never null, den > 0"""
     if v is RAISED or v is None:
         return [0, 1, False]
     try:
-        r = proj.rat(v, max_den)
+        r = proj.rat(float(v) * 2.0 ** (-EXP[0]) if scaled and EXP[0] else v, max_den)
     except Exception:
         return [0, 1, False]
     if r[1] <= 0:
@@ -81,7 +91,7 @@ class View(object):
 
     def snap(self, tree):
         ids = {}
-        g = proj.tree_graph(tree, codes=self.codes, node_ids=ids, labels=False)
+        g = proj.tree_graph(tree, codes=self.codes, node_ids=ids, labels=False, scale=Fraction(proj.LSCALE) / unit())
         order = ids.pop("__order__")
         return g, ids, order
 
@@ -106,10 +116,85 @@ def call(fn, errs):
 
 
 # ---------------------------------------------------------------------------- building the inputs of a case
+def scaled_nested(nd):
+    """the nested form with every length multiplied by the case's scale (None and 0 stay)"""
+    if not EXP[0]:
+        return nd
+    ln = nd[2]
+    return [nd[0], nd[1], ln if not ln else ln * 2.0 ** EXP[0], [scaled_nested(c) for c in nd[3]]]
+
+
 def make(case, dendropy, rooted):
     ns, taxa = build.make_namespace(dendropy, case["ntax"], holes=tuple(case.get("holes", ())), order=case.get("order"))
-    tree = build.build_tree(dendropy, case["nested"], ns, taxa, rooted=rooted)
+    tree = build.build_tree(dendropy, scaled_nested(case["nested"]), ns, taxa, rooted=rooted)
     return ns, taxa, tree
+
+
+# ---------------------------------------------------------------------------- matrices with a history
+HISTS = ("rotated", "rerooted", "more_taxa", "relength", "unrelated")
+
+
+def copy_nested(nd):
+    return [nd[0], nd[1], nd[2], [copy_nested(c) for c in nd[3]]]
+
+
+def prior_nested(case):
+    """the tree a matrix object was compiled from BEFORE it is compiled from the case's tree (choice of inputs):
+    children rotated + new lengths / rerooted / one more taxon / new lengths only / an unrelated tree on the same taxa"""
+    rng = random.Random(case["seed"] * 77 + 5)
+    kind = case["hist"]
+    t = copy_nested(case["nested"])
+
+    def relength(nd):
+        nd[2] = rng.choice((None, 0, 1, 2, 3))
+        for c in nd[3]:
+            relength(c)
+
+    def rotate(nd):
+        nd[3].reverse()
+        for c in nd[3]:
+            rotate(c)
+    if kind == "rerooted":
+        inner = [i for i, c in enumerate(t[3]) if c[3]]
+        if inner and len(t[3]) >= 2:
+            i = rng.choice(inner)
+            c = t[3].pop(i)
+            rest = [None, None, c[2], t[3]]
+            return [None, None, None, c[3] + [rest]]
+        kind = "rotated"
+    if kind == "more_taxa":
+        if case["ntax"] > case["nleaves"] and t[3]:
+            t[3].insert(rng.randrange(len(t[3]) + 1), [None, case["nleaves"], rng.choice((None, 1, 2)), []])
+            rotate(t)
+            return t
+        kind = "rotated"
+    if kind == "unrelated":
+        nl = case["nleaves"]
+        perm = list(range(nl))
+        rng.shuffle(perm)
+        return build.assign(build.random_parents(rng, nl, p_poly=0.3, p_unif=0.1), rng, perm)
+    if kind == "rotated":
+        rotate(t)
+    relength(t)
+    return t
+
+
+def matrix_for(case, dendropy, tree, ns, taxa, node_matrix=False):
+    """the matrix of `tree`: fresh (Tree.phylogenetic_distance_matrix / node_distance_matrix), or - cases with a
+    history - ONE matrix object compiled from another tree first and then re-compiled from `tree` with the public
+    compile_from_tree()"""
+    from dendropy.calculate import phylogeneticdistance
+    if not case.get("hist"):
+        return tree.node_distance_matrix() if node_matrix else tree.phylogenetic_distance_matrix()
+    prior = build.build_tree(dendropy, scaled_nested(prior_nested(case)), ns, taxa, rooted=case["rooted"])
+    m = phylogeneticdistance.NodeDistanceMatrix() if node_matrix else phylogeneticdistance.PhylogeneticDistanceMatrix()
+    m.compile_from_tree(prior)
+    m.compile_from_tree(tree)
+    return m
+
+
+def hist_of(case):
+    return case.get("hist") or "fresh"
 
 
 def subsets_of(items, rng, limit):
@@ -133,11 +218,11 @@ def part_pdm(case, dendropy, rng, evs):
     ns, taxa, tree = make(case, dendropy, case["rooted"])
     view = View(ns)
     errs = []
-    pdm = call(lambda: tree.phylogenetic_distance_matrix(), errs)
+    pdm = call(lambda: matrix_for(case, dendropy, tree, ns, taxa), errs)
     g, ids, order = view.snap(tree)
     leaf_taxa = [nd.taxon for nd in order if not nd._child_nodes]
     tx = [view.code(t) for t in leaf_taxa]
-    ev = {"action": "Pdm", "g": g, "tx": tx, "raised": "", "pd": [], "call": [], "pc": [], "mr": [], "mapped": [],
+    ev = {"action": "Pdm", "hist": hist_of(case), "g": g, "tx": tx, "raised": "", "pd": [], "call": [], "pc": [], "mr": [], "mapped": [],
           "dists": [], "distsu": [], "subs": []}
     if pdm is RAISED:
         ev["raised"] = errs[0]
@@ -175,9 +260,9 @@ def part_pdm(case, dendropy, rng, evs):
             e2 = []
             rec = {"S": [view.code(t) for t in members], "all": is_all,
                    "mpd": rat(call(lambda: pdm.mean_pairwise_distance(filter_fn=fn), e2)),
-                   "mpdu": rat(call(lambda: pdm.mean_pairwise_distance(filter_fn=fn, is_weighted_edge_distances=False), e2)),
+                   "mpdu": rat(call(lambda: pdm.mean_pairwise_distance(filter_fn=fn, is_weighted_edge_distances=False), e2), scaled=False),
                    "mntd": rat(call(lambda: pdm.mean_nearest_taxon_distance(filter_fn=fn), e2)),
-                   "mntdu": rat(call(lambda: pdm.mean_nearest_taxon_distance(filter_fn=fn, is_weighted_edge_distances=False), e2)),
+                   "mntdu": rat(call(lambda: pdm.mean_nearest_taxon_distance(filter_fn=fn, is_weighted_edge_distances=False), e2), scaled=False),
                    "raised": e2[0] if e2 else ""}
             ev["subs"].append(rec)
     if errs:
@@ -189,9 +274,9 @@ def part_ndm(case, dendropy, rng, evs):
     ns, taxa, tree = make(case, dendropy, case["rooted"])
     view = View(ns)
     errs = []
-    ndm = call(lambda: tree.node_distance_matrix(), errs)
+    ndm = call(lambda: matrix_for(case, dendropy, tree, ns, taxa, node_matrix=True), errs)
     g, ids, order = view.snap(tree)
-    ev = {"action": "Ndm", "g": g, "raised": "", "pd": [], "pc": [], "mr": []}
+    ev = {"action": "Ndm", "hist": hist_of(case), "g": g, "raised": "", "pd": [], "pc": [], "mr": []}
     if ndm is RAISED:
         ev["raised"] = errs[0]
         ev["pd"] = ev["pc"] = ev["mr"] = [[-9] * len(order) for _ in order]
@@ -321,7 +406,8 @@ def apply_edit(kind, tree, taxa, view, rng, dendropy):
     if kind == "graft":
         if spare and internals:
             y = rng.choice(internals)
-            y.add_child(dendropy.Node(taxon=spare[0], edge_length=rng.choice((None, 0, 1, 2))))
+            ln = rng.choice((None, 0, 1, 2))
+            y.add_child(dendropy.Node(taxon=spare[0], edge_length=ln if not ln else ln * 2.0 ** EXP[0]))
             return "graft"
         kind = "swap"
     if kind == "swap" and len(leaves) >= 2:
@@ -359,10 +445,10 @@ def part_mrca(case, dendropy, rng, evs):
     tm_queries(Batches(evs, view, tree, {"action": "Tm", "enc": "stale_after_" + applied2}), tree, pairs, view)
 
 
-def result_event(action, src, g, view, thunk):
+def result_event(action, src, g, view, thunk, hist="fresh"):
     errs = []
     res = call(thunk, errs)
-    ev = {"action": action, "src": src, "g": g, "raised": "", "u": g, "rl": [[0, 1]] * g["n"], "rx": True}
+    ev = {"action": action, "src": src, "hist": hist, "g": g, "raised": "", "u": g, "rl": [[0, 1]] * g["n"], "rx": True}
     if res is RAISED:
         ev["raised"] = errs[0]
         return ev
@@ -374,7 +460,7 @@ def result_event(action, src, g, view, thunk):
         if ln is None:
             rl.append([0, 1])
         else:
-            r = rat(ln)
+            r = rat(ln, scaled=(src != "tree_steps"))      # edge-count distances carry no length scale
             rl.append([r[0], r[1]])
             rx = rx and r[2]
     ev["u"], ev["rl"], ev["rx"] = u, rl, rx
@@ -385,7 +471,8 @@ def part_cluster(case, dendropy, rng, evs):
     ns, taxa, tree = make(case, dendropy, case["rooted"])
     view = View(ns)
     errs0 = []
-    pdm = call(lambda: tree.phylogenetic_distance_matrix(), errs0)
+    pdm = call(lambda: matrix_for(case, dendropy, tree, ns, taxa), errs0)
+    hist = hist_of(case)
     g, ids, order = view.snap(tree)
     leaf_taxa = [nd.taxon for nd in order if not nd._child_nodes]
     if pdm is RAISED:
@@ -393,18 +480,18 @@ def part_cluster(case, dendropy, rng, evs):
             raise RuntimeError(errs0[0])
         for action, flag in (("Nj", "nj"), ("Upgma", "upgma")):
             if case.get(flag):
-                ev = result_event(action, "tree", g, view, fail)
+                ev = result_event(action, "tree", g, view, fail, hist)
                 ev["raised"] = errs0[0]
                 evs.append(ev)
         return
     if case.get("nj"):
-        evs.append(result_event("Nj", "tree", g, view, lambda: pdm.nj_tree()))
+        evs.append(result_event("Nj", "tree", g, view, lambda: pdm.nj_tree(), hist))
     if case.get("upgma"):
-        evs.append(result_event("Upgma", "tree", g, view, lambda: pdm.upgma_tree()))
+        evs.append(result_event("Upgma", "tree", g, view, lambda: pdm.upgma_tree(), hist))
     if case.get("steps"):
         # the same on the edge-count distances of the tree (every edge weighs 1)
-        evs.append(result_event("Nj", "tree_steps", g, view, lambda: pdm.nj_tree(is_weighted_edge_distances=False)))
-        evs.append(result_event("Upgma", "tree_steps", g, view, lambda: pdm.upgma_tree(is_weighted_edge_distances=False)))
+        evs.append(result_event("Nj", "tree_steps", g, view, lambda: pdm.nj_tree(is_weighted_edge_distances=False), hist))
+        evs.append(result_event("Upgma", "tree_steps", g, view, lambda: pdm.upgma_tree(is_weighted_edge_distances=False), hist))
     if case.get("csv"):
         errs = []
 
@@ -413,7 +500,7 @@ def part_cluster(case, dendropy, rng, evs):
             pdm.write_csv(out, is_normalize_by_tree_size=False)
             return dendropy.PhylogeneticDistanceMatrix.from_csv(io.StringIO(out.getvalue()), taxon_namespace=ns)
         pdm2 = call(round_trip, errs)
-        ev = {"action": "Csv", "g": g, "tx": [view.code(t) for t in leaf_taxa], "raised": "", "pd": []}
+        ev = {"action": "Csv", "hist": hist, "g": g, "tx": [view.code(t) for t in leaf_taxa], "raised": "", "pd": []}
         if pdm2 is RAISED:
             ev["raised"] = errs[0]
             ev["pd"] = [[-9] * len(leaf_taxa) for _ in leaf_taxa]
@@ -424,9 +511,9 @@ def part_cluster(case, dendropy, rng, evs):
             ev["raised"] = errs[0]
         evs.append(ev)
         if case.get("nj"):
-            evs.append(result_event("Nj", "csv", g, view, lambda: pdm2.nj_tree()))
+            evs.append(result_event("Nj", "csv", g, view, lambda: pdm2.nj_tree(), hist))
         if case.get("upgma_csv"):
-            evs.append(result_event("Upgma", "csv", g, view, lambda: pdm2.upgma_tree()))
+            evs.append(result_event("Upgma", "csv", g, view, lambda: pdm2.upgma_tree(), hist))
 
 
 def part_csvfloat(case, dendropy, rng, evs):
@@ -460,6 +547,7 @@ PARTS = {"csvfloat": part_csvfloat, "pdm": part_pdm, "ndm": part_ndm, "tm": part
 def run_case(case):
     import dendropy
     warnings.simplefilter("ignore")
+    EXP[0] = int(case.get("scale_exp", 0))
     evs = []
     for k, part in enumerate(case["parts"]):
         PARTS[part](case, dendropy, random.Random(case["seed"] * 31 + k), evs)
@@ -535,8 +623,26 @@ def model_cases(ctx, states):
                 "parts": ["pdm", "ndm", "tm", "mrca"] + (["cluster"] if nl >= 2 else []),
                 "nj": bool(st["njok"]), "upgma": nl >= 2, "csv": nl >= 2, "upgma_csv": bool(st["ultra"]),
                 "steps": nl >= 2 and k % 4 == 0, "tlc_njok": bool(st["njok"]), "tlc_ultra": bool(st["ultra"])}
-        cases.append(finish_case(case, rng, nl))
+        case = finish_case(case, rng, nl)
+        # rotated over the dumped trees (no extra executions): a power-of-two length scale, and matrix objects with a history
+        case["scale_exp"] = {1: -40, 3: -20, 5: 20}.get(k % 8, 0)
+        if nl >= 2 and k % 3 == 0:
+            case["hist"] = HISTS[(k // 3) % len(HISTS)]
+            if case["hist"] == "more_taxa" and case["ntax"] == nl:
+                case["ntax"] += 1
+        cases.append(case)
     return cases
+
+
+def lengths_tiny(nested, rng):
+    """NJ precondition at the edge: every internal edge 1 unit, terminal edges 1024 / 2048 / 3072 units; with the
+    case's scale 2**-30 the internal edges are about 1e-9 next to terminal edges of about 1e-6 .. 3e-6"""
+    def rec(nd):
+        nd[2] = 1024 * rng.choice((1, 2, 3)) if not nd[3] else 1
+        for c in nd[3]:
+            rec(c)
+    rec(nested)
+    return nested
 
 
 def lengths_nj(nested, rng):
@@ -590,6 +696,16 @@ def random_cases(ctx, n):
         case = {"kind": "random", "flavour": "decimal", "seed": ctx.seed * 7919 + 400000 + k, "nleaves": nl, "nested": nested,
                 "parts": ["csvfloat"]}
         cases.append(finish_case(case, rng, nl))
+    for k in range(max(40, n // 4)):
+        nl = rng.randint(4, 8)
+        perm = list(range(nl))
+        rng.shuffle(perm)
+        nested = lengths_tiny(build.assign(build.random_parents(rng, nl, p_poly=0.15 if k % 2 else 0.0, p_unif=0.0), rng, perm), rng)
+        case = {"kind": "random", "flavour": "nj_tiny", "seed": ctx.seed * 7919 + 450000 + k, "nleaves": nl, "nested": nested,
+                "parts": ["pdm", "cluster"], "nj": True, "upgma": False, "csv": True, "upgma_csv": False, "steps": False}
+        case = finish_case(case, rng, nl)
+        case["scale_exp"] = -30
+        cases.append(case)
     for k in range(n):
         flavour = ("any", "nj", "ultra", "nj_binary")[k % 4]
         nl = rng.randint(6, 12)
@@ -608,7 +724,13 @@ def random_cases(ctx, n):
                 "parts": ["pdm", "ndm", "tm", "mrca", "cluster"],
                 "nj": flavour in ("nj", "nj_binary"), "upgma": flavour == "ultra" or nl <= 8, "csv": True,
                 "upgma_csv": flavour == "ultra", "steps": nl <= 8}
-        cases.append(finish_case(case, rng, nl))
+        case = finish_case(case, rng, nl)
+        case["scale_exp"] = (0, -40, 0, 20, -20, 0)[k % 6]
+        if k % 3 == 1:
+            case["hist"] = HISTS[(k // 3) % len(HISTS)]
+            if case["hist"] == "more_taxa" and case["ntax"] == nl:
+                case["ntax"] += 1
+        cases.append(case)
     return cases
 
 
@@ -696,6 +818,12 @@ def finish_summary(ctx, stats, nmodel, nrand):
                            "is what distinguishes size-weighted averaging, which no ultrametric input can")
     ctx.assumptions.append("Tree.mrca / treemeasure are judged on the tree state at return (an implicit encode_bipartitions of an "
                            "unrooted tree collapses its basal bifurcation)")
+    ctx.extra["rotated_dimensions"] = (
+        "over the dumped and random trees (no extra executions): all edge lengths of a case times 2^-40 / 2^-20 / 2^20 (3 of 8 model cases; "
+        "the projection divides the scale out exactly, TLC sees the same integers); every third case builds its matrices as ONE "
+        "PhylogeneticDistanceMatrix / NodeDistanceMatrix object compiled from another tree first (children rotated + new lengths, rerooted, "
+        "one more taxon, new lengths, unrelated tree on the same taxa) and then re-compiled with compile_from_tree() from the case's tree; "
+        "+ NJ cases with every internal edge 2^-30 next to terminal edges 1024..3072 times longer (precondition 'positive internal lengths' at the edge)")
     ctx.assumptions.append("normalisation by tree size, path_edges (is_store_path_edges), shuffle_taxa and the standardized effect sizes "
                            "are not part of the property and are not judged")
 
